@@ -398,6 +398,7 @@ type worker struct {
 	rep      sink
 	evals    int64
 	distinct int64
+	rtOK     bool  // set by evalSingle: the round trip of the last error kept its kind
 	pruned   int64 // chains not extended because their kind was already lost (only when a violation is reported)
 	extra    int64 // R5: d recognised as a kind e was not recognised as (not a violation)
 	outcomes map[outcome]int64
@@ -544,11 +545,13 @@ func causeClass(c *chain) string {
 	return "built"
 }
 
+// outerCtor names the outermost constructor for signatures; a constructor and its f-variant share a name
+// (they share their implementation, one defect would otherwise appear under two signatures).
 func outerCtor(c *chain) string {
 	if c.n == 0 {
 		return "sentinel"
 	}
-	return ctorNames[c.steps[c.n-1].ctor]
+	return [nCtors]string{"New", "New", "Errorf", "Errorf", "WrapError", "WrapError", "WrapIfNotCommonError", "WrapIfNotCommonError"}[c.steps[c.n-1].ctor]
 }
 
 func diffClass(re, rd string) string {
@@ -565,6 +568,7 @@ func diffClass(re, rd string) string {
 func (w *worker) evalSingle(family string, v mval, c *chain, verbose bool) (rec int) {
 	w.evals++
 	rec = -1
+	w.rtOK = false
 	defer func() {
 		if p := recover(); p != nil {
 			w.violate(fmt.Sprintf("panic:outer=%s:cause=%s", outerCtor(c), causeClass(c)), c.key(family), func() spec {
@@ -652,6 +656,7 @@ func (w *worker) evalSingle(family string, v mval, c *chain, verbose bool) (rec 
 		return
 	}
 	out.Got = int8(rec)
+	w.rtOK = true
 	// clause 3 (R6): reason
 	if !v.multi {
 		re, rd := normReason(reasonOf(e.Error(), rec)), normReason(reasonOf(d.Error(), rec))
@@ -799,8 +804,9 @@ func (w *worker) runTask(t task) {
 type poolElem struct {
 	v   mval
 	sp  spec
-	rec int
-	idx int // position in the list of all pool elements (orders replays)
+	rec  int
+	rtOK bool // alone, the element keeps its kind over the round trip
+	idx  int  // position in the list of all pool elements (orders replays)
 }
 
 func (w *worker) evalJoin(elems []*poolElem, verbose bool) {
@@ -861,11 +867,20 @@ func (w *worker) evalJoin(elems []*poolElem, verbose bool) {
 	if dMask&^eMask != 0 {
 		w.extra++
 	}
-	for _, p := range elems {
+	for i, p := range elems {
 		if dMask&(1<<uint(p.rec)) == 0 || !ce.Any(d, kinds[p.rec]) {
 			out.Got = -1
 			w.outcomes[out]++
-			viol("join:roundtrip-kind-lost:want="+kindName(p.rec), "a kind of the join is not recognised after the round trip", e, ser, d)
+			// a kind that is also lost when the element is serialised alone is a consequence of that defect (one
+			// signature per kind, like the single errors'); otherwise the defect is in the handling of joins
+			sig := "join:roundtrip-kind-lost:element-alone-also-fails:want=" + kindName(p.rec)
+			if p.rtOK {
+				sig = "join:roundtrip-kind-lost:element-alone-is-fine:position=later"
+				if i == 0 {
+					sig = "join:roundtrip-kind-lost:element-alone-is-fine:position=first"
+				}
+			}
+			viol(sig, "a kind of the join is not recognised after the round trip", e, ser, d)
 			return
 		}
 	}
@@ -900,7 +915,7 @@ func buildPools(w *worker) (big, mid, small []*poolElem) {
 			return // reported by evalSingle; not usable as an element with a known kind
 		}
 		nextIdx++
-		*l = append(*l, &poolElem{v: v, sp: c.spec("J-pool"), rec: rec, idx: nextIdx})
+		*l = append(*l, &poolElem{v: v, sp: c.spec("J-pool"), rec: rec, rtOK: w.rtOK, idx: nextIdx})
 	}
 	nm := func(i int) string { return kindName(i) }
 	chainSpec := func(seed int, k int, steps ...stepSpec) spec {
@@ -1209,7 +1224,7 @@ func replay(rep *ev.Reporter, path string) {
 			if rec < 0 {
 				return
 			}
-			elems = append(elems, &poolElem{v: v, sp: c.spec("J-pool"), rec: rec})
+			elems = append(elems, &poolElem{v: v, sp: c.spec("J-pool"), rec: rec, rtOK: w.rtOK})
 		}
 		w.evalJoin(elems, true)
 	default:
